@@ -22,6 +22,9 @@ RULE = ("states = (old, new) pairs of the pair trie visited, plus the corrupted 
 BUDGET = {"quick": 240, "thorough": 3000}
 
 LOOKALIKES = ["..\n", ". \n"]
+# content lines that look like commands or like the text-block terminator; they must travel through a text block unchanged
+LOOKALIKES2 = ["1d\n", "2a\n", "1,2c\n", "0a\n", "...\n", ".x\n", " .\n"]
+LOOK_MAXLEN = 2
 BADS = [("garbage", "x\n"), ("unknown-command", "1z\n"), ("non-numeric-range", "1,a\n"), ("no-address", "a\n"),
         ("negative-address", "-1d\n"), ("blank-before-command", "1 d\n"), ("range-on-append", "1,2a\n"),
         # beyond DESIGN.md's seven: nothing may follow the command letter (a regex that lost its "$" accepts it)
@@ -46,6 +49,9 @@ def bounds(tier):
     return {"base": "all (old, new) pairs of line lists of length <= %d over 3 ordinary lines: %d^2 = %d pairs" % (n, k, k * k),
             "lookalikes": "all pairs of lists of length <= %d over the 3 lines + %r: 156^2 = 24336 pairs, of which the "
                           "1600 without a look-alike are already in the base space and are not repeated" % (EXT_MAXLEN, LOOKALIKES),
+            "lookalikes2": "all pairs of lists of length <= %d over the first ordinary line + %r: 73^2 = 5329 pairs, of which the "
+                           "9 without such a line are in the base space and are not repeated; model script only"
+                           % (LOOK_MAXLEN, LOOKALIKES2),
             "scripts": "edscript.diff for every pair; diff -e for every pair when /usr/bin/diff exists (executed on the "
                        "implementation when it differs textually from the model's script)",
             "types": ["str", "bytes"],
@@ -58,6 +64,9 @@ def assumptions():
             "address-range errors (0c, 5,3d, addresses past the end) are semantic, not malformed commands, and are not generated",
             "every line of the files and of the scripts ends in a newline",
             "a script cut immediately after an a/c command line (no text at all) counts as an unterminated text block",
+            "content lines that merely look like commands ('1d', '2a', '1,2c', '0a') or resemble the terminator ('...', '.x', "
+            "' .') are ordinary lines of the files (second look-alike space, model script only); only a line that is "
+            "exactly '.' is excluded",
             "edscript.diff / edscript.apply are self-checked on the length <= 3 universe and every diff -e script used is "
             "first validated by edscript.apply"]
 
@@ -73,16 +82,21 @@ def _has_lookalike(l):
     return any(x in LOOKALIKES for x in l)
 
 
+def _has_lookalike2(l):
+    return any(x in LOOKALIKES2 for x in l)
+
+
 def units(tier, seed):
     _selfcheck()
     sym = symbols(seed)
     out = [{"space": "base", "old": old} for old in edscript.all_lists(sym, MAXLEN[tier])]
     out += [{"space": "ext", "old": old} for old in edscript.all_lists(sym + LOOKALIKES, EXT_MAXLEN)]
+    out += [{"space": "look", "old": old} for old in edscript.all_lists(sym[:1] + LOOKALIKES2, LOOK_MAXLEN)]
     return out
 
 
 def unit_cost(u, tier):
-    return (400 if u["space"] == "base" else 150) + len(u["old"])
+    return {"base": 400, "ext": 150, "look": 70}[u["space"]] + len(u["old"])
 
 
 # ------------------------------------------------------------------------------------------------ execution
@@ -177,12 +191,17 @@ def run_unit(u, tier, seed):
     old = u["old"]
     if u["space"] == "base":
         news = edscript.all_lists(sym, MAXLEN[tier])
+    elif u["space"] == "look":
+        news = edscript.all_lists(sym[:1] + LOOKALIKES2, LOOK_MAXLEN)
+        if not _has_lookalike2(old):
+            news = [n for n in news if _has_lookalike2(n)]
     else:
         news = edscript.all_lists(sym + LOOKALIKES, EXT_MAXLEN)
         if not _has_lookalike(old):
             news = [n for n in news if _has_lookalike(n)]
-    differ = edscript.DiffE() if edscript.have_diff() else None
-    part.max_depth = 2 * (MAXLEN[tier] if u["space"] == "base" else EXT_MAXLEN)
+    # the second look-alike space uses the model's script only
+    differ = edscript.DiffE() if edscript.have_diff() and u["space"] != "look" else None
+    part.max_depth = 2 * {"base": MAXLEN[tier], "ext": EXT_MAXLEN, "look": LOOK_MAXLEN}[u["space"]]
 
     def run(case, outcome, nontrivial):
         bad = exec_case(case)
